@@ -5,6 +5,7 @@ import (
 	"go/token"
 	"go/types"
 	"math/big"
+	"strings"
 
 	"golang.org/x/tools/go/ssa"
 )
@@ -89,11 +90,23 @@ func c18prov(p *Prog, r *Report) {
 		r.Check(a != nil && flowsFromField(a, "Timestamp") && depOnParamType(a, "Frame"), rule, "NewBlockFromFrame:timestamp<-frame.Timestamp", p.ipos(c), fnName(nbf), "block timestamp is the frame's", "NewBlock is not given frame.Timestamp")
 	}
 	fBT := p.Field(HG, "BlockBody", "Timestamp")
+	var strangers []string
 	for _, w := range p.writersOf(fBT) {
 		if w.Fn == nb {
 			r.Check(isParam(w.Val, nb, 6), rule, "NewBlock:Body.Timestamp<-param", p.ipos(w.Instr), fnName(nb), "body timestamp is the parameter", "BlockBody.Timestamp is not NewBlock's timestamp parameter")
+		} else {
+			strangers = append(strangers, fnName(w.Fn)+"@"+p.ipos(w.Instr))
 		}
 	}
+	// closed world: the median is the ONLY source of a block timestamp
+	r.Check(len(strangers) == 0, rule, "BlockBody.Timestamp:writers", p.pos(nb.Pos()), "", "BlockBody.Timestamp is written by NewBlock only", "BlockBody.Timestamp is also written outside NewBlock (the block no longer carries the median of its round's famous witnesses): "+strings.Join(strangers, ", "))
+	strangers = nil
+	for _, w := range p.writersOf(fTs) {
+		if w.Fn != gf {
+			strangers = append(strangers, fnName(w.Fn)+"@"+p.ipos(w.Instr))
+		}
+	}
+	r.Check(len(strangers) == 0, rule, "Frame.Timestamp:writers", p.pos(gf.Pos()), "", "Frame.Timestamp is written by GetFrame only", "Frame.Timestamp is also written outside GetFrame: "+strings.Join(strangers, ", "))
 }
 
 func c18rank(p *Prog, r *Report) {
